@@ -50,7 +50,7 @@ func AlignDeltaStream[N Number](s stream.Stream[TsRecord[N]], ap AlignmentPeriod
 				// If this is not the first cluster
 
 				// Check if  the first item is magically aligned to the slot, return it
-				if localFirstItem.Timestamp == clusterTimestampClassifier {
+				if localFirstItem.Timestamp.Equal(clusterTimestampClassifier) {
 					return TsRecord[N]{
 						Value:     localFirstItem.Value,
 						Timestamp: clusterTimestampClassifier,
@@ -86,9 +86,9 @@ func AlignDeltaStream[N Number](s stream.Stream[TsRecord[N]], ap AlignmentPeriod
 		stream.FromLazy(lazy.NewLazyOptional(func(ctx context.Context) (*TsRecord[N], error) {
 			// Unless the last item magically aligns to a slot, append it to the stream
 			if globalLastItem != nil &&
-				globalLastItem.Timestamp != ap.GetStartTime(globalLastItem.Timestamp) &&
+				!globalLastItem.Timestamp.Equal(ap.GetStartTime(globalLastItem.Timestamp)) &&
 				// This handles the case of a single item stream, we should emit nothing...
-				globalLastItem.Timestamp != globalFirstItem.Timestamp {
+				!globalLastItem.Timestamp.Equal(globalFirstItem.Timestamp) {
 				// If the last item is not aligned to the slot, we add it so it will be counted in delta
 				globalLastItem.Timestamp = ap.GetEndTime(globalLastItem.Timestamp)
 				return globalLastItem, nil
